@@ -25,11 +25,13 @@ class BaseParser(ABC):
     def find_file_locations(self) -> List[Path]:
         # Symlinks are skipped, as in `files_for_directory`: a manifest reached
         # through a link may live outside the target directory
-        return [
+        # Sorted, so that the manifest that receives a new dependency does not
+        # depend on the order in which the file system lists directories
+        return sorted(
             path
             for path in Path(self.parent_directory).rglob(self.file_type.value)
             if not path.is_symlink()
-        ]
+        )
 
     def parse(self) -> list[PackageStore]:
         """
